@@ -290,6 +290,23 @@ def closeConnection (c : Chan) : Chan × Ret :=
     | (c2, .ok (.method 10 51 _)) => (c2, .unit)
     | (c2, .ok _) => (c2, .err .frameUnexpected)
 
+/-- How the (joined) I/O thread ended. -/
+inductive IoEnd where
+  | ok
+  | failed (e : Err)
+  | panicked
+  deriving Repr, DecidableEq
+
+/-- `Connection::close_impl`: the close call's result is kept aside, the I/O thread is joined; a
+    panic or an error of the thread is what `close` reports (the root cause), else the close
+    call's own result. -/
+def closeImpl (c : Chan) (io : IoEnd) : Chan × Ret :=
+  let (c1, r) := closeConnection c
+  match io with
+  | .panicked => (c1, .err (.other "IoThreadPanic"))
+  | .failed e => (c1, .err e)
+  | .ok => (c1, r)
+
 /-- `Channel::new` for a channel of a connection that negotiated `frameMax`. -/
 def newChan (id frameMax : Nat) : Chan := { id := id, limit := Tune.payloadLimit frameMax }
 
